@@ -77,6 +77,8 @@ def fresh_of(ex, st, shape, name):
         return make_obj(ex, st, shape[4:], name)
     if shape == "arr":
         return fresh(name, A)
+    if shape == "arr2":
+        return fresh(name, A2)
     if shape == "float":
         return FloatV(fresh(name, z3.RealSort()))
     raise ValueError(f"unknown shape {shape!r}")
